@@ -41,6 +41,14 @@ func isReservedHeader(k string) bool {
 		return false
 	}
 }
+func isHopByHopHeader(k string) bool {
+	switch k {
+	case "connection", "keep-alive", "proxy-connection", "transfer-encoding", "upgrade":
+		return true
+	default:
+		return false
+	}
+}
 func isWhitelistedHeader(k string) bool {
 	switch k {
 	case ":authority", "user-agent":
@@ -73,6 +81,9 @@ func newIncomingContext(ctx context.Context, header http.Header) (context.Contex
 		k = strings.ToLower(k)
 		if isReservedHeader(k) && !isWhitelistedHeader(k) {
 			continue
+		}
+		if isHopByHopHeader(k) {
+			continue // connection-specific: must not travel on (HTTP/2 backends reset the stream)
 		}
 		if strings.HasSuffix(k, binHdrSuffix) {
 			dst := make([]string, len(vs))
